@@ -1123,9 +1123,57 @@ def monitor_simple1(kind):
     return monitor
 
 
-SIMPLE1_RULE = ("v1 simplified discipline in a synctest bubble (monitor only): Handle honours its context (returns `linger` fake ns after it is done) "
+SIMPLE1_RULE = ("v1 simplified discipline in a synctest bubble (graceful endings compared with the composed model Prio1 + handlers, family 11; the others monitor only): Handle honours its context (returns `linger` fake ns after it is done) "
                 "or returns when the driver lets it go; endings: graceful finale, Stop, cancel, two overlapping Stop calls, Stop during a pending "
                 "GracefulStop, two overlapping GracefulStop calls; goroutines created by the library are counted after every stop call has returned")
+
+
+def simple1_variants(sc):
+    """the model side of a family-10 scenario: family 11 (Prio1 + handlers), same script without the linger parameter"""
+    e = sc.enc
+    return [[11, e[1], e[2], FUEL] + list(e[4:])]
+
+
+def simple1_project(sc, vals):
+    """graceful endings only (after Stop()/cancel the Handle calls are interrupted through their context: monitors decide those).
+    Compared at every settled operation: running Handle calls, items for which Handle has been started so far, and the final
+    termination."""
+    m = sc.meta
+    if m["ending"] not in ("graceful", "double-graceful"):
+        return SKIP
+    rows = []
+    if vals and all(isinstance(x, int) for x in vals):          # model: [0; per op: running total k items..; terminated; err]
+        v = list(vals)
+        if v[0] != 0:
+            return ["error", v[0]]
+        pos = 1
+        for _ in m["ops"]:
+            running, total, k = v[pos:pos + 3]
+            rows.append((running, total, sorted(v[pos + 3:pos + 3 + k])))
+            pos += 3 + k
+        term = v[pos]
+    else:
+        v = list(vals)
+        for mark in ("final-goroutines", "extra"):
+            if mark in v:
+                v = v[:v.index(mark)]
+        v = [x for x in v if x != "no-termination"]
+        v = [int(x) for x in v]
+        if v[0] != 0:
+            return ["error", v[0]]
+        pos = 1
+        for _ in m["ops"]:
+            running, total, t_, sret, gret, leaked, k = v[pos:pos + 7]
+            rows.append((running, total, sorted(v[pos + 7:pos + 7 + k]), t_))
+            pos += 7 + k
+        term = rows[-1][3] if rows else 0
+    out, acc = [], []
+    for (code, arg, stl), r in zip(m["ops"], rows):
+        acc += r[2]
+        if stl:
+            out.append((r[0], r[1], sorted(acc)))
+            acc = []
+    return ["simple1", out, term]
 
 
 # ------------------------------------------------------------------------------------------------ shrinking
